@@ -197,7 +197,7 @@ func genC04(e *emitter, tier string, seed uint64) map[string]interface{} {
 	}
 	// gzip decoder: hostile trailers (the rest is C10's generator)
 	tiny := stdCompress([]byte("hello"))
-	for _, v := range []uint32{0, 4, 6, 1 << 16, 1 << 24, 1 << 28} {
+	for _, v := range []uint32{0, 4, 6, 1 << 16, 1 << 20, 5000000, 1<<24 - 1, 1 << 24, 1 << 28} {
 		gzDecOp(e, withISIZE(tiny, v), "gzip/isize-hostile")
 	}
 	for i := 0; i < 200; i++ {
@@ -209,7 +209,7 @@ func genC04(e *emitter, tier string, seed uint64) map[string]interface{} {
 	}
 	// typed error extraction: Packet.Err on every status x (valid error body | garbage | empty) x codec x type
 	for st := 0; st < 256; st++ {
-		for k := 0; k < 3; k++ {
+		for k := 0; k < 4; k++ {
 			codec := []protocol.CodecType{protocol.CodecProtobuf, protocol.CodecJSON, protocol.CodecUnknown, 7}[rg.intn(4)]
 			typ := []protocol.PacketType{protocol.ResponsePacket, protocol.ResponsePacket, protocol.ResponsePacket, protocol.PushPacket, protocol.RequestPacket, ""}[rg.intn(6)]
 			var body []byte
@@ -223,6 +223,23 @@ func genC04(e *emitter, tier string, seed uint64) map[string]interface{} {
 				}
 			case 1:
 				body = rg.bytes(1 + rg.intn(20))
+			case 3:
+				// damaged only after a valid field has been decoded
+				ce := &control.Error{Code: uint64(1 + rg.intn(100000)), Msg: []string{"denied", "boom", "x y z"}[rg.intn(3)]}
+				if codec == protocol.CodecJSON {
+					body, _ = json.Marshal(ce)
+					body = append(body, []byte{'}', ',', 'x'}[rg.intn(3)])
+				} else {
+					body, _ = pb.Marshal(ce)
+					switch rg.intn(3) {
+					case 0:
+						body = append(body, 0x07)
+					case 1:
+						body = body[:len(body)-1]
+					default:
+						body = append(body, 0x1a, 0x7f)
+					}
+				}
 			}
 			// the decoder of the error body is an oracle for the model: what the real proto/json decoder says
 			dec := "none"
